@@ -309,6 +309,21 @@ def kernel_cases(case):
     return out
 
 
+def schema_probe():
+    """accept / refuse of small matching-cost configurations, in a fixed order (census first: in a new process it
+    is the first class to touch the shared class-level schema dictionary)"""
+    from pandora import matching_cost
+    out = []
+    for method, ws in [("census", 3), ("census", 7), ("census", 4), ("sad", 4), ("sad", 7), ("zncc", 2), ("zncc", 9),
+                       ("ssd", 1), ("census", 5), ("census", 9)]:
+        try:
+            matching_cost.AbstractMatchingCost(matching_cost_method=method, window_size=ws)
+            out.append([method, ws, "accepted"])
+        except Exception as exc:  # pylint: disable=broad-except
+            out.append([method, ws, "refused:" + type(exc).__name__])
+    return out
+
+
 def main():
     spec = json.load(sys.stdin)
     import numba
@@ -321,6 +336,7 @@ def main():
            "threading_layer_requested": str(numba.config.THREADING_LAYER),
            "pandora": os.path.dirname(pandora.__file__)}
     results = []
+    probe_start = schema_probe()
     for n in spec.get("set_threads") or [None]:
         if n is not None:
             numba.set_num_threads(n)
@@ -337,7 +353,7 @@ def main():
         env["threading_layer"] = numba.threading_layer()
     except Exception:  # pylint: disable=broad-except
         env["threading_layer"] = None
-    json.dump({"env": env, "results": results}, sys.stdout)
+    json.dump({"env": env, "results": results, "probe_start": probe_start, "probe_end": schema_probe()}, sys.stdout)
 
 
 if __name__ == "__main__":
